@@ -31,4 +31,16 @@ func init() {
 		{Kind: "conds", File: tk, Func: "Tokenizer.TokenizeWithLimits", Name: "limitsKeywordCases", Index: 1},
 		{Kind: "calls", File: tk, Func: "Tokenizer.TokenizeWithLimits", Name: "limitsConditions", Match: []string{"if"}},
 	}
+
+	const vv = "v2/pkg/variablesvalidation/variablesvalidation.go"
+	specs["C06"] = []item{
+		{Kind: "conds", File: vv, Func: "variablesVisitor.traverseNamedTypeNode", Name: "namedKinds", Index: 0},
+		{Kind: "cases", File: vv, Func: "variablesVisitor.traverseNamedTypeNode", Name: "scalarNames", Typ: "string", Index: 1},
+		{Kind: "calls", File: vv, Func: "variablesVisitor.traverseNamedTypeNode", Name: "namedConds", Match: []string{"if"}},
+		{Kind: "calls", File: vv, Func: "variablesVisitor.traverseOperationType", Name: "opConds", Match: []string{"if"}},
+		{Kind: "calls", File: vv, Func: "variablesVisitor.traverseFieldDefinitionType", Name: "fieldConds", Match: []string{"if"}},
+		{Kind: "calls", File: vv, Func: "variablesVisitor.violatesOneOfConstraint", Name: "oneOfConds", Match: []string{"if"}},
+		{Kind: "calls", File: vv, Func: "variablesVisitor.EnterVariableDefinition", Name: "enterConds", Match: []string{"if", "v.variables.Get", "v.traverseOperationType"}},
+		{Kind: "calls", File: vv, Func: "VariablesValidator.Validate", Name: "validateSkeleton", Match: []string{"if", "astjson.ParseBytes", "v.walker.Walk", "return"}},
+	}
 }
